@@ -184,8 +184,49 @@ def build_space(spec):
     return {nm: (build_domain(d) if kind == "dom" else d) for nm, kind, d in spec}
 
 
-def gen_points(rng, spec, space):
-    """partial / duplicate / empty / None points_to_evaluate"""
+def tag_retyped(rng, v):
+    """JSON-able tag for a value EQUAL to v but of another type (numpy scalars, int-valued floats, ints for
+    floats, bool for 0/1): what arrives from numpy tables, CSV or JSON files of earlier results"""
+    if isinstance(v, bool):
+        return v
+    if isinstance(v, int):
+        opts = ["np.int64", "float", "np.float64"] + (["bool"] if v in (0, 1) else [])   # np.bool_ is rejected by Integer.cast (TypeError), not suggested
+    elif isinstance(v, float):
+        opts = ["np.float64"] + (["int"] if float(v).is_integer() else [])
+    elif isinstance(v, str):
+        opts = ["np.str_"]
+    else:
+        return v
+    return {"__t": rng.choice(opts), "v": v}
+
+
+def untag(v):
+    if isinstance(v, dict) and "__t" in v:
+        conv = {"np.int64": np.int64, "np.float64": np.float64, "np.str_": np.str_, "np.bool_": np.bool_,
+                "float": float, "int": int, "bool": bool}[v["__t"]]
+        return conv(v["v"])
+    return v
+
+
+def pts_of(case):
+    """points_to_evaluate of a case with the tagged values converted to their real types"""
+    pts = case["pts"]
+    return None if pts is None else [{k: untag(v) for k, v in pt.items()} for pt in pts]
+
+
+def retype_config(space, config, seed):
+    """a trial's configuration as it comes back from a backend which stored it in a table: values of
+    hyperparameters equal but differently typed (constants untouched)"""
+    import random as _random
+    from syne_tune.config_space import Domain
+    r = _random.Random(seed)
+    return {k: (untag(tag_retyped(r, v)) if isinstance(space.get(k), Domain) and r.random() < 0.5 else v)
+            for k, v in config.items()}
+
+
+def gen_points(rng, spec, space, retype=False):
+    """partial / duplicate / empty / None points_to_evaluate; with [retype], some values are tagged to be
+    replaced by equal values of another type"""
     from syne_tune.config_space import Domain
     mode = rng.choice(["none", "empty", "some", "some", "dups"])
     if mode == "none":
@@ -206,6 +247,8 @@ def gen_points(rng, spec, space):
         if rng.random() < 0.5:
             pts.insert(0, {})
             pts.append({})
+    if retype and rng.random() < 0.6:
+        pts = [{k: (tag_retyped(rng, v) if rng.random() < 0.6 else v) for k, v in pt.items()} for pt in pts]
     return pts
 
 
@@ -217,7 +260,7 @@ def value_ok(dom, v):
     if isinstance(dom, Categorical):
         return any(type(v) is type(c) and v == c for c in dom.categories)
     vt = dom.value_type
-    if isinstance(v, bool) or not isinstance(v, vt):
+    if type(v) is not vt:           # strictly the domain's type: no bool for int, no numpy scalar for float/int
         return False
     if isinstance(dom, FiniteRange):
         return any(v == x for x in dom.values)
@@ -350,11 +393,11 @@ def quiet():
 # --------------------------------------------------------------------------
 # 1. RandomSearcher sequences (model correspondence + checker)
 # --------------------------------------------------------------------------
-def gen_rs_case(rng):
+def gen_rs_case(rng, retype=False):
     finite = rng.random() < 0.6
     spec = gen_space_spec(rng, finite_only=finite, small=finite and rng.random() < 0.6)
     space = build_space(spec)
-    pts = gen_points(rng, spec, space)
+    pts = gen_points(rng, spec, space, retype)
     restrict = None
     if rng.random() < 0.25:
         rs = np.random.RandomState(rng.randrange(10 ** 6))
@@ -365,7 +408,7 @@ def gen_rs_case(rng):
             c = hp.random_config(rs)
             restrict.append({k: (v.item() if hasattr(v, "item") else v) for k, v in c.items()})
         if rng.random() < 0.5 and pts:
-            restrict.append(expected_initial(space, pts)[0])
+            restrict.append(expected_initial(space, pts_of(dict(pts=pts)))[0])
     ops = []
     for _ in range(rng.randint(3, 30)):
         ops.append(rng.choice(["get", "get", "get", "pending", "failed", "update"]))
@@ -380,7 +423,7 @@ def run_rs_case(ctx, case):
     space = build_space(case["spec"])
     enc = Enc(space)
     rec = Recorder()
-    pts = case["pts"]
+    pts = pts_of(case)
     restrict = [dict(c) for c in case["restrict"]] if case["restrict"] is not None else None
     with rec.patch():
         s = RandomSearcher(space, metric="m", points_to_evaluate=pts, allow_duplicates=case["allow_dup"],
@@ -461,10 +504,10 @@ def run_rs_case(ctx, case):
 # --------------------------------------------------------------------------
 # 2. GridSearcher sequences
 # --------------------------------------------------------------------------
-def gen_gs_case(rng):
+def gen_gs_case(rng, retype=False):
     spec = gen_space_spec(rng, finite_only=rng.random() < 0.7, small=True, nmax=3)
     space = build_space(spec)
-    return dict(kind="gs", spec=spec, pts=gen_points(rng, spec, space), shuffle=rng.random() < 0.6,
+    return dict(kind="gs", spec=spec, pts=gen_points(rng, spec, space, retype), shuffle=rng.random() < 0.6,
                 allow_dup=rng.random() < 0.25, seed=rng.randrange(10 ** 6), num_samples=rng.choice([None, 2, 3]),
                 ops=[rng.random() < 0.8 for _ in range(rng.randint(3, 45))])
 
@@ -478,7 +521,7 @@ def run_gs_case(ctx, case):
     ns = None
     if case["num_samples"] is not None:
         ns = {k: case["num_samples"] for k, d in space.items() if isinstance(d, (Float, Integer))}
-    s = GridSearcher(space, metric="m", points_to_evaluate=case["pts"], num_samples=ns,
+    s = GridSearcher(space, metric="m", points_to_evaluate=pts_of(case), num_samples=ns,
                      shuffle_config=case["shuffle"], allow_duplicates=case["allow_dup"], random_seed=case["seed"])
     combos = [dict(zip(s.hp_keys, vals)) for vals in s.hp_values_combinations]
     outs = []
@@ -488,7 +531,7 @@ def run_gs_case(ctx, case):
         else:
             s.register_pending(str(i), config=combos[0] if combos else None)
             s.evaluation_failed(str(i))
-    pts = case["pts"]
+    pts = pts_of(case)
     imputed = [expected_initial(space, [p])[0] for p in (pts if pts is not None else [dict()])]
     term = "(%s, %s, %s, %s, %s)" % (lst([enc(c) for c in imputed]), lst([enc(c) for c in combos]),
                                        blit(case["allow_dup"]), lst([blit(g) for g in case["ops"]]),
@@ -547,14 +590,15 @@ NO_REPEAT = {"fifo-random", "fifo-grid", "fifo-bayesopt", "hb-stopping-random", 
 FAST_GP = dict(opt_maxiter=3, opt_nstarts=1, num_init_candidates=15, debug_log=False)
 
 
-def gen_sched_case(rng, kind):
+def gen_sched_case(rng, kind, retype=False):
     gp = "bayesopt" in kind or "hypertune" in kind
     finite = rng.random() < (0.3 if gp else 0.5)
     spec = gen_space_spec(rng, finite_only=finite, small=False, nmax=3 if gp else 4)
     space = build_space(spec)
     n = rng.randint(6, 9) if gp else rng.randint(8, 40)
     ops = [rng.choice(["suggest", "suggest", "suggest", "report", "report", "complete", "error"]) for _ in range(n * 2)]
-    return dict(kind="sched", sched=kind, spec=spec, pts=gen_points(rng, spec, space), seed=rng.randrange(10 ** 6),
+    return dict(kind="sched", sched=kind, spec=spec, pts=gen_points(rng, spec, space, retype),
+                retype_trial_configs=bool(retype and rng.random() < 0.4), seed=rng.randrange(10 ** 6),
                 num_init_random=rng.choice([1, 2, 3, 50]), max_suggest=n, ops=ops,
                 metrics=[round(rng.uniform(0, 1), 3) for _ in range(n * 4)])
 
@@ -562,7 +606,7 @@ def gen_sched_case(rng, kind):
 def make_scheduler(case, space):
     from syne_tune.optimizer.schedulers import FIFOScheduler, HyperbandScheduler, PopulationBasedTraining
     from syne_tune.optimizer.schedulers.synchronous import GeometricDifferentialEvolutionHyperbandScheduler
-    kind, seed, pts = case["sched"], case["seed"], case["pts"]
+    kind, seed, pts = case["sched"], case["seed"], pts_of(case)
     so = dict(debug_log=False)
     if "bayesopt" in kind or "hypertune" in kind:
         so = dict(FAST_GP, num_init_random=case["num_init_random"])
@@ -637,7 +681,10 @@ def run_sched_case(ctx, case):
                         new_cfgs.append(sg.config)
                         if sg.checkpoint_trial_id is None:
                             scratch_cfgs.append(sg.config)      # started from scratch = asked from the searcher
-                        tr = Trial(trial_id=next_id, config=sg.config, creation_time=T0)
+                        back = sg.config
+                        if case.get("retype_trial_configs"):
+                            back = retype_config(space, sg.config, case["seed"] + next_id)
+                        tr = Trial(trial_id=next_id, config=back, creation_time=T0)
                         sch.on_trial_add(tr)
                         running[next_id] = tr
                         epoch[next_id] = 0
@@ -679,7 +726,7 @@ def run_sched_case(ctx, case):
             del running[t]
     PAUSED.clear()
     # ---- checker over the new-trial suggestions ----
-    init = expected_initial(space, case["pts"])
+    init = expected_initial(space, pts_of(case))
     size = config_space_size(space)
     if viol is None:
         # trials started from scratch (PBT's exploit/explore trials are warm-started from a checkpoint and
@@ -706,13 +753,13 @@ PAUSED = {}
 # --------------------------------------------------------------------------
 # 4. GPFIFOSearcher behind FIFOScheduler: correspondence of the selection layer
 # --------------------------------------------------------------------------
-def gen_mb_case(rng):
+def gen_mb_case(rng, retype=False):
     finite = rng.random() < 0.5
     spec = gen_space_spec(rng, finite_only=finite, small=finite, nmax=2, consts=False)
     space = build_space(spec)
     n = rng.randint(5, 8)
     ops = [rng.choice(["suggest", "suggest", "update", "fail"]) for _ in range(n * 2)]
-    return dict(kind="mb", spec=spec, pts=gen_points(rng, spec, space), seed=rng.randrange(10 ** 6),
+    return dict(kind="mb", spec=spec, pts=gen_points(rng, spec, space, retype), seed=rng.randrange(10 ** 6),
                 num_init_random=rng.choice([0, 1, 2, 3, 30]), ops=ops, max_suggest=n,
                 metrics=[round(rng.uniform(0, 1), 3) for _ in range(20)])
 
@@ -738,7 +785,7 @@ def run_mb_case(ctx, case):
     so = dict(FAST_GP, num_init_random=case["num_init_random"], local_minimizer_class=RecordingOptimizer)
     with rec.patch(), contextlib.redirect_stdout(io.StringIO()):
         sch = FIFOScheduler(space, searcher="bayesopt", search_options=so, metric="m", mode="min",
-                            random_seed=case["seed"], points_to_evaluate=case["pts"])
+                            random_seed=case["seed"], points_to_evaluate=pts_of(case))
         evs, obs, running, tid, mi, n_sug, n_bo = [], [], {}, 0, 0, 0, 0
         new_cfgs = []
         viol = None
@@ -779,7 +826,7 @@ def run_mb_case(ctx, case):
                 tr = running.pop(t)
                 sch.on_trial_error(tr)
                 evs.append("(EFail %s)" % zlit(t))
-    pts = case["pts"]
+    pts = pts_of(case)
     imputed = [expected_initial(space, [p])[0] for p in (pts if pts is not None else [dict()])]
     size = config_space_size(space)
     term = "(%s, %s, false, %s, %s, %s)" % (
@@ -867,7 +914,7 @@ def exhaustion_cases(ctx, rng):
                         seed=rng.randrange(10 ** 6), ops=["get"] * (n + 2)))
     for _ in range(ctx.n(6, 30)):
         spec = gen_space_spec(rng, finite_only=True, small=True, nmax=2)
-        out.append(dict(kind="rs", spec=spec, pts=gen_points(rng, spec, build_space(spec)), restrict=None,
+        out.append(dict(kind="rs", spec=spec, pts=gen_points(rng, spec, build_space(spec), True), restrict=None,
                         allow_dup=False, debug=False, seed=rng.randrange(10 ** 6), ops=["get"] * 40))
     return out
 
@@ -884,19 +931,25 @@ def run(ctx, replay=None):
     if replay is not None:
         cases = [replay]
     else:
-        cases = [gen_rs_case(rng) for _ in range(ctx.n(160, 1500))] + exhaustion_cases(ctx, rng)
-        cases += [gen_gs_case(rng) for _ in range(ctx.n(120, 1200))]
+        cases = [gen_rs_case(rng, True) for _ in range(ctx.n(160, 1500))] + exhaustion_cases(ctx, rng)
+        cases += [gen_gs_case(rng, True) for _ in range(ctx.n(120, 1200))]
         # minimal input of known finding F-C06-2 (finrange with colliding rounded values), run every time
         cases.append(dict(kind="gs", spec=[["x", "dom", ["finrange", 0.0, 2.0, 5, True]]], pts=[], shuffle=False,
                           allow_dup=False, seed=0, num_samples=None, ops=[True] * 6))
         for kind in SCHED_KINDS:
             gp = "bayesopt" in kind or "hypertune" in kind
-            cases += [gen_sched_case(rng, kind) for _ in range(ctx.n(8 if gp else 30, 30 if gp else 250))]
-        cases += [gen_mb_case(rng) for _ in range(ctx.n(24, 100))]
+            cases += [gen_sched_case(rng, kind, True) for _ in range(ctx.n(8 if gp else 30, 30 if gp else 250))]
+        cases += [gen_mb_case(rng, True) for _ in range(ctx.n(24, 100))]
         cases += [dict(kind="pp", seed=rng.randrange(10 ** 9)) for _ in range(ctx.n(150, 1500))]
     rs_terms, rs_meta, gs_terms, gs_meta, prod_terms, prod_meta, mb_terms, mb_meta, pp_terms, pp_meta = ([] for _ in range(10))
     for case in cases:
         k = case["kind"]
+        for pt in (case.get("pts") or []):
+            for v in pt.values():
+                if isinstance(v, dict) and "__t" in v:
+                    ctx.h("retyped_point_values", "%s for %s" % (v["__t"], type(v["v"]).__name__))
+        if case.get("retype_trial_configs"):
+            ctx.h("retyped_trial_configs", case["sched"])
         if k == "rs":
             term, viol, nontriv, info = run_rs_case(ctx, case)
             ctx.count(case, nontrivial=nontriv)
